@@ -383,11 +383,15 @@ func runC09Case(c *c09Case) (fails []c09Fail, classes []string, headerCut bool) 
 	m.Start()
 	muxErrs := make(chan []error, 1)
 	go func() {
-		errs, _ := drainErrs(m.ErrorChan(), c09Wait+20*time.Second)
+		errs, _ := drainErrs(m.ErrorChan(), 15*time.Minute) // until closed
 		muxErrs <- errs
 	}()
 
 	var wg sync.WaitGroup
+	var farBytes, delivered atomic.Int64
+	progress := func() int64 { return tap.nRead.Load() + tap.nWritten.Load() + farBytes.Load() + delivered.Load() }
+	stall, stopStall := stallChan(c09Wait, progress)
+	defer stopStall()
 
 	// ---- outbound: local senders, far end collects the raw wire ----
 	expectOut := 0
@@ -409,6 +413,7 @@ func runC09Case(c *c09Case) (fails []c09Fail, classes []string, headerCut bool) 
 		for {
 			n, err := b.Read(buf)
 			wire = append(wire, buf[:n]...)
+			farBytes.Add(int64(n))
 			if !sent && len(wire) >= expectOut {
 				sent = true
 				farWire <- append([]byte(nil), wire...)
@@ -482,6 +487,7 @@ func runC09Case(c *c09Case) (fails []c09Fail, classes []string, headerCut bool) 
 						ID: seg.GetProtocolId(), Response: seg.IsResponse(),
 						Len: seg.PayloadLength, Payload: append([]byte(nil), seg.Payload...),
 					})
+					delivered.Add(1)
 					switch y := c.RecvYield[i]; {
 					case y == 1:
 						runtime.Gosched()
@@ -529,9 +535,9 @@ func runC09Case(c *c09Case) (fails []c09Fail, classes []string, headerCut bool) 
 			default:
 				wire = <-farFinal
 			}
-		case <-time.After(c09Wait):
+		case <-stall:
 			if c.Bad == "" {
-				fail("C09:send:stalled", fmt.Sprintf("far end did not receive the %d expected wire bytes within %v", expectOut, c09Wait),
+				fail("C09:send:stalled", fmt.Sprintf("far end did not receive the %d expected wire bytes (no progress for %v)", expectOut, c09Wait),
 					map[string]any{"goroutines": goroutineDump()})
 			}
 		}
@@ -545,7 +551,7 @@ func runC09Case(c *c09Case) (fails []c09Fail, classes []string, headerCut bool) 
 		if c.Bad == "" {
 			select {
 			case <-senders:
-			case <-time.After(c09Wait):
+			case <-stall:
 				fail("C09:send:sender-blocked", "a sender is still blocked after the whole wire was received", map[string]any{"goroutines": goroutineDump()})
 			}
 			for i, err := range sendErrs {
@@ -565,13 +571,13 @@ func runC09Case(c *c09Case) (fails []c09Fail, classes []string, headerCut bool) 
 			go func() { wg.Wait(); close(done) }()
 			select {
 			case <-done:
-			case <-time.After(c09Wait):
+			case <-stall:
 				fail("C09:recv:stalled", "the muxer stopped consuming a valid inbound stream", map[string]any{"goroutines": goroutineDump()})
 			}
 			_ = b.Close()
 		}
 		finished := 0
-		timeout := time.After(c09Wait)
+		timeout := stall
 	waitRecv:
 		for finished < k {
 			select {
@@ -583,7 +589,7 @@ func runC09Case(c *c09Case) (fails []c09Fail, classes []string, headerCut bool) 
 		}
 		if finished < k {
 			if c.Bad != "" {
-				fail("C09:bad:"+c.Bad+":not-closed", fmt.Sprintf("offending segment (%s) did not shut the muxer down: %d of %d receiver channels still open after %v", c.Bad, k-finished, k, c09Wait),
+				fail("C09:bad:"+c.Bad+":not-closed", fmt.Sprintf("offending segment (%s) did not shut the muxer down: %d of %d receiver channels still open, nothing moved for %v", c.Bad, k-finished, k, c09Wait),
 					map[string]any{"goroutines": goroutineDump()})
 			} else {
 				fail("C09:recv:not-closed-on-eof", "receiver channels not closed after the peer closed the connection", map[string]any{"goroutines": goroutineDump()})
@@ -595,7 +601,7 @@ func runC09Case(c *c09Case) (fails []c09Fail, classes []string, headerCut bool) 
 				select {
 				case <-recvDone:
 					finished++
-				case <-time.After(c09Wait):
+				case <-stall:
 					return
 				}
 			}
@@ -630,7 +636,7 @@ func runC09Case(c *c09Case) (fails []c09Fail, classes []string, headerCut bool) 
 	if c.Bad != "" {
 		select {
 		case <-farClosed:
-		case <-time.After(c09Wait):
+		case <-stall:
 			fail("C09:bad:"+c.Bad+":conn-open", "the connection was not closed after the offending segment", map[string]any{"goroutines": goroutineDump()})
 		}
 	}
@@ -639,7 +645,7 @@ func runC09Case(c *c09Case) (fails []c09Fail, classes []string, headerCut bool) 
 	var errs []error
 	select {
 	case errs = <-muxErrs:
-	case <-time.After(c09Wait + 30*time.Second):
+	case <-time.After(c09Wait + 60*time.Second): // teardown only
 		classes = append(classes, "errorchan_not_closed")
 	}
 	var cce *muxer.ConnectionClosedError
